@@ -128,6 +128,110 @@ def data_mutants_of(src, module):
                 yield f"{where} drop-not {ast.unparse(n)[:50]}", replace(n, "(" + ast.unparse(n.operand) + ")")
 
 
+def value_mutants_of(src, module):
+    """Value slips (one edit each): a keyword argument dropped, a copy removed (list(x) / x.copy() / dict(x) / set(x) / [*x] -> x), one operand of a
+    binary operation dropped, the two arms of a conditional expression swapped, a string literal replaced by another literal of the same
+    function that looks alike (both start with '#', or both are identifiers), a returned value dropped."""
+    tree = ast.parse(src)
+    lines = src.splitlines(keepends=True)
+
+    def replace(n, text):
+        l1, c1, l2, c2 = n.lineno, n.col_offset, n.end_lineno, n.end_col_offset
+        out = list(lines)
+        if l1 == l2:
+            out[l1 - 1] = out[l1 - 1][:c1] + text + out[l1 - 1][c2:]
+        else:
+            out[l1 - 1] = out[l1 - 1][:c1] + text + out[l2 - 1][c2:]
+            del out[l1:l2]
+        return "".join(out)
+
+    def seg(n):
+        return ast.get_source_segment(src, n)
+    for fn in ast.walk(tree):
+        if not isinstance(fn, ast.FunctionDef):
+            continue
+        docs = {id(b.value) for b in ast.walk(fn) if isinstance(b, ast.Expr) and isinstance(b.value, ast.Constant)}
+        strs = sorted({n.value for n in ast.walk(fn) if isinstance(n, ast.Constant) and isinstance(n.value, str) and id(n) not in docs and 0 < len(n.value) < 20
+                       and not any(isinstance(p, ast.JoinedStr) for p in ast.walk(fn) if n in getattr(p, "values", []))})
+        for n in ast.walk(fn):
+            where = f"{module}.{fn.name}:{getattr(n, 'lineno', 0)}"
+            if isinstance(n, ast.Call):
+                for k in n.keywords:
+                    if k.arg and len(n.args) + len(n.keywords) >= 1:
+                        rest = [seg(a) for a in n.args] + [f"{q.arg}={seg(q.value)}" if q.arg else f"**{seg(q.value)}" for q in n.keywords if q is not k]
+                        if all(r is not None for r in rest) and seg(n.func):
+                            yield f"{where} drop-kw {k.arg} in {ast.unparse(n)[:50]}", replace(n, f"{seg(n.func)}({', '.join(rest)})")
+                f = n.func
+                if isinstance(f, ast.Name) and f.id in ("list", "dict", "set", "tuple", "frozenset", "sorted", "deepcopy") and len(n.args) == 1 and not n.keywords and seg(n.args[0]):
+                    yield f"{where} uncopy {ast.unparse(n)[:50]}", replace(n, "(" + seg(n.args[0]) + ")")
+                if isinstance(f, ast.Attribute) and f.attr in ("copy", "snapshot") and not n.args and not n.keywords and seg(f.value):
+                    yield f"{where} uncopy {ast.unparse(n)[:50]}", replace(n, "(" + seg(f.value) + ")")
+            if isinstance(n, ast.BinOp) and isinstance(n.op, (ast.Add, ast.Sub, ast.BitOr, ast.BitAnd)) and seg(n.left) and seg(n.right):
+                yield f"{where} drop-right {ast.unparse(n)[:50]}", replace(n, "(" + seg(n.left) + ")")
+                yield f"{where} drop-left {ast.unparse(n)[:50]}", replace(n, "(" + seg(n.right) + ")")
+            if isinstance(n, ast.IfExp) and seg(n.body) and seg(n.orelse) and seg(n.test):
+                yield f"{where} swap-arms {ast.unparse(n)[:50]}", replace(n, f"({seg(n.orelse)} if {seg(n.test)} else {seg(n.body)})")
+            if isinstance(n, ast.Constant) and isinstance(n.value, str) and n.value in strs and id(n) not in docs:
+                like = [t for t in strs if t != n.value and (t.startswith("#") == n.value.startswith("#")) and (t.isidentifier() == n.value.isidentifier())]
+                if like:
+                    alt = like[(like.index(min(like, key=lambda t: (t < n.value, t))))]
+                    yield f"{where} str {n.value!r} -> {alt!r}", replace(n, repr(alt))
+            if isinstance(n, ast.Return) and n.value is not None and not (isinstance(n.value, ast.Constant) and n.value.value is None):
+                yield f"{where} return-none {ast.unparse(n)[:50]}", replace(n, "return None")
+            # regular expressions (lexer tables, literal classifiers): one quantifier / class member changed
+            if False and isinstance(n, ast.Constant) and isinstance(n.value, str) and id(n) not in docs and any(t in n.value for t in ("\\s", "[", "(?:", "\\b", "\\.")) and len(n.value) < 120:
+                rx = n.value
+                cands = []
+                for i, ch in enumerate(rx):
+                    if ch == "*" and (i == 0 or rx[i - 1] != "\\"):
+                        cands.append((f"* -> ? at {i}", rx[:i] + "?" + rx[i + 1:]))
+                        cands.append((f"* -> + at {i}", rx[:i] + "+" + rx[i + 1:]))
+                    elif ch == "+" and (i == 0 or rx[i - 1] != "\\"):
+                        cands.append((f"+ -> * at {i}", rx[:i] + "*" + rx[i + 1:]))
+                    elif ch == "?" and i > 0 and rx[i - 1] not in "\\(":
+                        cands.append((f"? dropped at {i}", rx[:i] + rx[i + 1:]))
+                for what, new_rx in cands[:12]:
+                    try:
+                        import re as _re
+                        _re.compile(new_rx)
+                    except Exception:
+                        continue
+                    yield f"{where} regex {what} in {rx[:30]!r}", replace(n, ("r" if "\\" in new_rx and '"' not in new_rx else "") + ('"' + new_rx + '"' if "\\" in new_rx and '"' not in new_rx else repr(new_rx)))
+
+
+def regex_mutants_of(src, module):
+    """One quantifier of a regular-expression literal changed (anywhere in the module, the lexer table included)."""
+    import re as _re
+    tree = ast.parse(src)
+    lines = src.splitlines(keepends=True)
+    for n in ast.walk(tree):
+        if not (isinstance(n, ast.Constant) and isinstance(n.value, str) and n.lineno == n.end_lineno and len(n.value) < 160
+                and any(t in n.value for t in ("\\s", "(?:", "\\b", "\\.", "[0-9]", "[a-z"))):
+            continue
+        rx = n.value
+        cands = []
+        for i, ch in enumerate(rx):
+            esc = i > 0 and rx[i - 1] == "\\"
+            if ch == "*" and not esc:
+                cands += [(f"* -> ? at {i}", rx[:i] + "?" + rx[i + 1:]), (f"* -> + at {i}", rx[:i] + "+" + rx[i + 1:])]
+            elif ch == "+" and not esc:
+                cands += [(f"+ -> * at {i}", rx[:i] + "*" + rx[i + 1:])]
+            elif ch == "?" and i > 0 and not esc and rx[i - 1] != "(":
+                cands += [(f"? dropped at {i}", rx[:i] + rx[i + 1:])]
+        for what, new_rx in cands:
+            try:
+                _re.compile(new_rx)
+            except Exception:
+                continue
+            lit = 'r"' + new_rx + '"' if '"' not in new_rx else "r'" + new_rx + "'"
+            if "'" in new_rx and '"' in new_rx:
+                lit = repr(new_rx)
+            ln = lines[n.lineno - 1]
+            out = list(lines)
+            out[n.lineno - 1] = ln[:n.col_offset] + lit + ln[n.end_col_offset:]
+            yield f"{module}:{n.lineno} regex {what} in {rx[:40]!r}", "".join(out)
+
+
 def run_one(job):
     idx, module, desc, newsrc = job
     d = tempfile.mkdtemp(prefix="ptm_")
@@ -170,13 +274,13 @@ def main():
     ap.add_argument("--limit", type=int, default=0)
     ap.add_argument("--seed", type=int, default=int(os.environ.get("VERIF_SEED", "1") or 1))
     ap.add_argument("--out", default="mutsweep.json")
-    ap.add_argument("--ops", default="control", help="control (comparison / branch / statement edits) or data (argument, name, attribute, literal slips)")
+    ap.add_argument("--ops", default="control", help="control (comparison / branch / statement edits), data (argument, name, attribute, literal slips) or value (dropped keyword / copy / operand, swapped arms, look-alike strings, dropped return value)")
     a = ap.parse_args()
     jobs = []
     for m in a.modules.split(","):
         src = open(os.path.join(REPO, "ptera", f"{m}.py")).read()
         seen = set()
-        for desc, new in (mutants_of if a.ops == "control" else data_mutants_of)(src, m):
+        for desc, new in {"control": mutants_of, "data": data_mutants_of, "value": lambda s_, m_: list(value_mutants_of(s_, m_)) + list(regex_mutants_of(s_, m_))}[a.ops](src, m):
             if new != src and new not in seen:
                 seen.add(new)
                 jobs.append((len(jobs), m, desc, new))
